@@ -122,7 +122,32 @@ def d_read_leftover():
     """
     >>> print(leftover)
     """
+
+def d_requires_dotted_missing():
+    """
+    >>> # xdoctest: +REQUIRES(module:json.xdverif_no_such_submodule)
+    >>> print('never')
+    """
+
+def d_requires_dotted_present():
+    """
+    >>> # xdoctest: +REQUIRES(module:json.decoder)
+    >>> print('present')
+    present
+    """
+
+def d_requires_toplevel_present():
+    """
+    >>> # xdoctest: +REQUIRES(module:json)
+    >>> print('json is there')
+    json is there
+    """
 '''
+
+# verdicts known by construction (whatever ran before, whatever the default options): the first observation in the
+# process is not trusted for these, it may itself be polluted by process-wide state
+EXPECT_VERDICT = {'d_requires_dotted_missing': 'skipped', 'd_requires_dotted_present': 'passed', 'd_requires_toplevel_present': 'passed',
+                  'd_requires_two': 'skipped', 'd_define': 'passed', 'd_uses_global': 'passed', 'd_read': 'failed', 'd_read_leftover': 'failed'}
 
 
 def observe(ex, default_state):
@@ -178,7 +203,10 @@ def history_search(ctx):
                 ctx.evaluations += 1
                 key = (name, None if dflt is None else tuple(sorted(dflt.items())))
                 problem = None
-                if key not in baseline:
+                verdict = 'skipped' if (obs[0] == 'raised' and obs[1] == 'Skipped') else obs[0]     # an all-skipped doctest ends in pytest's Skipped
+                if name in EXPECT_VERDICT and verdict != EXPECT_VERDICT[name]:
+                    problem = 'doctest %s is %s after %r; run alone in a fresh process it is %s by construction' % (name, verdict, hist[:pos], EXPECT_VERDICT[name])
+                elif key not in baseline:
                     baseline[key] = obs
                 elif obs != baseline[key]:
                     problem = 'doctest %s behaves differently after %r: %r, alone/first: %r' % (name, hist[:pos], obs, baseline[key])
